@@ -190,7 +190,7 @@ package eval
 //@   property C10 C09 C07 C04
 
 // Members of the evaluator family: each is verified against the frame clause assuming the others' contracts.
-//@ funcs (*State).evalPostfixExpression, (*State).evalForExpression, (*State).evalForList, (*State).evalIdentifier, (*State).evalPrefixIncrDecr, (*State).evalPipe, (*State).evalIndexExpression, (*State).evalMapLiteral, (*State).evalPrintLogError, (*State).evalDelete, (*State).evalBuiltin, (*State).evalForSpecialForms
+//@ funcs (*State).evalPostfixExpression, (*State).evalForList, (*State).evalIdentifier, (*State).evalPrefixIncrDecr, (*State).evalPipe, (*State).evalIndexExpression, (*State).evalMapLiteral, (*State).evalPrintLogError, (*State).evalDelete, (*State).evalBuiltin, (*State).evalForSpecialForms
 //@   requires s != nil && s.env != nil
 //@   modifies heap
 //@   nosafety
@@ -203,6 +203,27 @@ package eval
 //@   ensures  @C04 mono:: missmono()
 //@   onpanic ensures regs:: regsame()
 //@   property C10 C04
+
+// Condition-style loops (C01): an error in the body is the result; return leaves the loop with its marker; break ends
+// the loop with the last completed iteration's value (never a marker); continue goes on.
+//@ func (*State).evalForExpression
+//@   requires s != nil && s.env != nil
+//@   modifies heap
+//@   nosafety
+//@   maypanic *
+//@   loop * invariant s.depth == old(s.depth) && s.env == old(s.env) && s.Out == old(s.Out) && s.env.numReg == old(s.env.numReg)
+//@   loop * invariant regsame()
+//@   loop * invariant @C04 missmono()
+//@   ensures  frame:: frame(s)
+//@   ensures  regs:: regsame()
+//@   ensures  @C04 mono:: missmono()
+//@   onpanic ensures regs:: regsame()
+//@   witness ne = callresult after evalInternal#2
+//@   loop 1 invariant @C01 !isErr(lastEval) && !isRet(lastEval)
+//@   ensures  @C01 bodyerror:: implies(captured(ne) && isErr(ne), result == ne)
+//@   ensures  @C01 bodyreturn:: implies(captured(ne) && isRet(ne) && ne.(object.ReturnValue).ControlType == token.RETURN, result == ne)
+//@   ensures  @C01 bodybreak:: implies(captured(ne) && isRet(ne) && ne.(object.ReturnValue).ControlType == token.BREAK, !isErr(result) && !isRet(result))
+//@   property C10 C04 C01
 
 // Assignment (C05): what is bound, and what is used as index and element, is never a register object (registers are
 // reused once their loop or call is over).
